@@ -51,13 +51,14 @@ static void partition_T(const CaseCfg& c, Rng& rng, Outcome& o) {
                   w.kv("what", "output is not a permutation of the input").kv("first_diff_rank", diff).str());
     if (!v.partitioned) {
       // Observable classes of an invalid result (so that different defects get different keys):
-      //  input-untouched: the sequence was returned exactly as given, result is a block boundary
+      //  leftovers-not-cleaned-up: positions were left unexamined by the parallel phase, yet the caller-side
+      //     clean-up did not apply the predicate even once; the result is a block boundary
       //  leftover-span-misses-boundary: output is T* F+ T+ F* and the returned point closes a span that
       //     ends/starts on a block boundary (a serial clean-up that did not reach the low/high meeting point)
       std::string cls;
       bool blockPoint = ret >= 0 && (ret % 1024 == 0 || (n - ret) % 1024 == 0);
-      if (c.threads >= 2 && v.untouched && blockPoint)
-        cls = ":input-untouched";
+      if (c.threads >= 2 && serial == 0 && !allExamined && blockPoint)
+        cls = ":leftovers-not-cleaned-up";
       else if (c.threads >= 2 && v.inRange) {
         bool lowSide = false, highSide = false;
         if (v.runs <= 1 || (v.runs == 2 && v.firstRunTrue)) {
